@@ -299,6 +299,13 @@ func TestVerifC12Manager(t *testing.T) {
 		}
 		pids = append(pids, p)
 	}
+	// let every PostStart turn finish: it bumps processedCount and stamps the actor
+	for _, p := range pids {
+		for dl := time.Now().Add(2 * time.Second); p.processedCount.Load() < 1 && time.Now().Before(dl); {
+			time.Sleep(200 * time.Microsecond)
+		}
+	}
+	time.Sleep(2 * time.Millisecond)
 	for ci := range cases {
 		cs := &cases[ci]
 		w := &c12World{m: newPassivationManager(log.DiscardLogger), base: time.Now().UnixNano(), objs: map[*passivationEntry]int{}, pids: pids}
@@ -657,6 +664,30 @@ func TestVerifC12Live(t *testing.T) {
 			_ = Tell(ctx, l.pid, &ResumePassivation{})
 			time.Sleep(T * 3 / 2)
 		}()
+	}
+	// paused, busy while paused, resumed right after a message: the resume must start from that message
+	for i, period := range []time.Duration{70 * time.Millisecond, 120 * time.Millisecond} {
+		l := spawn(fmt.Sprintf("c12pausedbusy%d", i), "pausedbusy", tb(T))
+		l.out.TimeoutNs = int64(T)
+		wg.Add(1)
+		go func(l *live, period time.Duration) {
+			defer wg.Done()
+			_ = Tell(ctx, l.pid, &PausePassivation{})
+			mark(l, "paused")
+			end := time.Now().Add(T + T/4) // the deadline the entry was parked with has passed by then
+			for time.Now().Before(end) {
+				if Tell(ctx, l.pid, &c12Work{}) == nil {
+					l.out.Sent++
+				}
+				time.Sleep(period * scale)
+			}
+			_ = Tell(ctx, l.pid, &c12Work{})
+			time.Sleep(5 * time.Millisecond)
+			mark(l, "resume")
+			_ = Tell(ctx, l.pid, &ResumePassivation{})
+			l.out.SentUntil = time.Since(base).Nanoseconds()
+			time.Sleep(T * 2)
+		}(l, period)
 	}
 	// suspended (a failure without a directive), later reinstated
 	{
